@@ -25,6 +25,13 @@ use super::{
 const PARSE_AT_LEAST: usize = 3; // N in Corchuelo et al.
 const TRY_PARSE_AT_MOST: usize = 250;
 
+/// Verification hook: read-only export of `(PARSE_AT_LEAST, TRY_PARSE_AT_MOST)`.
+#[cfg(grmtools_verif)]
+#[doc(hidden)]
+pub fn verif_constants() -> (usize, usize) {
+    (PARSE_AT_LEAST, TRY_PARSE_AT_MOST)
+}
+
 #[derive(Clone, Copy, Debug, Eq, Hash, PartialEq)]
 enum Repair<StorageT> {
     /// Insert a `Symbol::Token` with idx `token_idx`.
